@@ -21,7 +21,7 @@ LEVEL_TEXT = ("Clouds of 10^4-10^6 particles are stepped 1-50 times by the real 
               "and two runs must be identical.")
 LEVEL_NOTE = "Restated as bounded statistics: moments and independence only (no normality test). A 6-sigma band with 1e5 particles is +-2.7 % on the variance: false alarms at the 1e-8 level per test, factor-2/unit errors far outside."
 RULE = ("case = (D, Dz, dt, dx, dy, steps, cloud size, seed). Non-trivial: D > 0 or Dz > 0 with at least 2 steps (independence across steps observable); distinct by parameters.")
-MANDATORY = ["e2e_row_dependent_spacing_subgrid_off_diagonal", "coefficients_of_1e-8_or_less", "few_particle_series_tests", "particles_in_state_1", "particles_in_state_2", "horizontal_variance_tests", "vertical_variance_tests", "mean_tests", "cross_covariance_tests", "lag1_tests", "neighbour_tests", "growth_tests",
+MANDATORY = ["e2e_version_1_configuration", "e2e_row_dependent_spacing_subgrid_off_diagonal", "coefficients_of_1e-8_or_less", "few_particle_series_tests", "particles_in_state_1", "particles_in_state_2", "horizontal_variance_tests", "vertical_variance_tests", "mean_tests", "cross_covariance_tests", "lag1_tests", "neighbour_tests", "growth_tests",
              "zero_diffusion_deterministic", "anisotropic_grid", "rng_seeded_by_harness", "e2e_variance_tests", "horizontal_vertical_covariance_tests", "varying_metric_variance_tests", "vertical_advection_with_diffusion_tests"]
 ASSUMPTIONS = ["still water, uniform metric, no boundaries reached (grid and water column far larger than the cloud)"]
 TIMEOUT = {"quick": 900, "thorough": 3400}
@@ -147,9 +147,24 @@ def run_e2e(case: dict[str, Any], wd: Path) -> dict[str, Any]:
         sit["e2e_row_dependent_spacing_subgrid_off_diagonal"] = 1
     run = dict(start=C.T0, stop=str(tadd(C.T0, dt * (steps + 1))), dt=dt, advection="EF", diffusion=D, subgrid=sub,
                release=dict(columns=["release_time", "mult", "X", "Y", "Z"], rows=[[C.T0, n, 30.0, 30.0, 5.0]], header=True), output=dict(period=dt))
+    v1mode = bool(case["idx"] % 3 == 2)
+    outfile: list = []
+
+    def tweak(conf):
+        if v1mode:  # the same run described by a legacy (version 1) configuration file: the coefficient sits in numerics.diffusion
+            from vmon.scenario import to_v1  # noqa: PLC0415
+
+            v1 = to_v1(conf)
+            outfile.append(v1["files"]["output_file"])
+            conf.clear()
+            conf.update(v1)
+
     with Hooks() as hk:
         hk.wrap(Tracker, "__init__", None, lambda tok, res, self, *a, **k: setattr(self, "rng", np.random.default_rng(case["rngseed"])))
-        res, conf, world = run_scenario(dict(world=w, run=run), wd)
+        res, conf, world = run_scenario(dict(world=w, run=run), wd, tweak=tweak)
+    if v1mode:
+        res.outputs = [Path(outfile[0])]
+        sit["e2e_version_1_configuration"] = 1
     desc = dict(kind="e2e", D=D, dt=dt, dx=dx, dy=dy, steps=steps, n=n, rngseed=case["rngseed"])
     if not res.ok:
         V.append(C.viol(f"end-to-end diffusion run did not complete: {res.exc}", tb=res.tb[-1200:], **desc))
